@@ -342,10 +342,7 @@ func gofmtCases(r *hx.Rand, n int) []*kase {
 // tameStars: a '*' argument between 5000 and 10^6 would make a legal but huge output
 // (slow in the extracted model); such arguments are moved just past fmt's limit or made small.
 func tameStars(k *kase) {
-	dirs, st := cParse(k.format)
-	if st != cOK {
-		dirs, _ = cParse(k.format) // still tame what was parsed
-	}
+	dirs, st, _ := cParse(k.format)
 	ai := 0
 	fix := func() {
 		if ai < len(k.args) {
